@@ -216,7 +216,15 @@ def s5(ctx, rep, clause="S5"):
         rec = {n.id for n in cfg.nodes if n.kind == "stmt" and isinstance(n.ast, ast.Assign)
                and any(isinstance(t, ast.Subscript) and "done_trials" in U(t.value) for t in n.ast.targets)}
         heads = [n.id for n in cfg.nodes if n.kind == "for" and any(s is cfg.nodes[n2].stmt for s in stmts_in(n.ast.body))]
-        p = cfg.path([s for s, l in cfg.succ[n2]], heads[-1], deleted=rec, skip_labels=("exc",))
+        # from the start of the branch that contains the notification (either order inside the branch is fine)
+        from ..engine import dominating_edges
+        starts = [s for s, l in cfg.succ[n2]]
+        doms = [(t, c_, tr) for (t, c_, tr) in dominating_edges(cfg, n2) if "status" in U(c_) or "done_trials" in U(c_)]
+        if doms:
+            t_last = doms[-1][0]
+            starts = [s for s, l in cfg.succ[t_last] if isinstance(l, tuple) and l[2] is doms[-1][2] and
+                      n2 in cfg.reachable(s)] or starts
+        p = cfg.path(starts, heads[-1], deleted=rec, skip_labels=("exc",))
         rep.put(p is None, clause, "must_follow", f"Tuner._update_running_trials: {fn_name(c)} [{_status_of(ctx, f, n2)}] → done_trials[trial_id] =", f, c, "",
                 witness=cfg.describe_path(p) if p else None)
 
